@@ -54,6 +54,8 @@ RULE = (
     "never comes (30 s shutdown timeout on the virtual clock), healthy close with standard_compatible True / False. "
     "High-level clients (props/c09_clients.py): the real TCPNetworkClient / AsyncTCPNetworkClient built with ssl=True (their own default context), one packet then "
     "close_notify / no close_notify / a cut at offsets inside the close_notify (quick: 3 offsets, thorough: all), ssl_standard_compatible in {unset, True, False}. "
+    "Closing (props/c09_closing.py): a reader parked in recv()/recv_into() while another task calls aclose() (started 0..3 loop turns after the reader parked), the peer answering "
+    "with close_notify / ending the connection without one 0, 1 or 3 relay steps after it saw ours / staying silent (2 s shutdown timeout), standard_compatible True and False. "
     "distinct_nontrivial = distinct (configuration, region of the cut, wrap result, reader result, plaintext length, close result) "
     "among cut (o < N) sessions"
 )
@@ -530,6 +532,9 @@ def jobs(tier: str) -> list[dict]:
     from . import c09_clients
 
     out += c09_clients.jobs(tier)  # the real TCPNetworkClient / AsyncTCPNetworkClient with ssl=True (the context they build themselves)
+    from . import c09_closing
+
+    out += c09_closing.jobs(tier)  # a reader parked in recv() while another task closes the transport
     return out
 
 
@@ -575,6 +580,10 @@ def run_job(job: dict) -> JobResult:
         from . import c09_clients
 
         return c09_clients.run_job(job)
+    if job.get("kind") == "closing":
+        from . import c09_closing
+
+        return c09_closing.run_job(job)
     res = JobResult()
     base = job["base"]
     # only the thorough tier enumerates EVERY byte offset; quick enumerates the structural subset completely
@@ -655,6 +664,10 @@ def replay(doc: dict) -> tuple[bool, str]:
         from . import c09_clients
 
         return c09_clients.replay(doc)
+    if doc["replay"].get("kind") == "closing":
+        from . import c09_closing
+
+        return c09_closing.replay(doc)
     cfg = doc["replay"]["cfg"]
     lay = layout_of(cfg)
     lines = [f"cfg={cfg}"]
